@@ -114,8 +114,8 @@ theorem merge_rot_complex (a1 a2 : Amp ℝ) (hc : (a1.cplx || a2.cplx) = true)
   rw [hang]
   simp only [matU, ex_sq, cs_real, sn_real]
   constructor
-  · rw [← hw2, ← key.1]
-  · rw [← hw1, ← key.2]
+  · rw [key.1, hw2]
+  · rw [key.2, hw1]
 
 /-- **real branch of `_compute_angles`** (both amplitudes are real scalars — in `MergeInitialize`
 these are always norms produced by earlier merges, hence `a₁ ≥ 0`; the hypothesis is needed:
@@ -131,7 +131,9 @@ theorem merge_rot_real (a1 a2 : Amp ℝ) (hc : (a1.cplx || a2.cplx) = false)
   have hNsq : N ^ 2 = a1.re ^ 2 + a2.re ^ 2 := by
     rw [hNdef]
     show (Real.sqrt ((a1.re * a1.re + a1.im * a1.im) + (a2.re * a2.re + a2.im * a2.im))) ^ 2 = _
-    rw [Real.sq_sqrt (by positivity), h1, h2]; ring
+    have nn : 0 ≤ (a1.re * a1.re + a1.im * a1.im) + (a2.re * a2.re + a2.im * a2.im) := by
+      nlinarith [mul_self_nonneg a1.re, mul_self_nonneg a1.im, mul_self_nonneg a2.re, mul_self_nonneg a2.im]
+    rw [Real.sq_sqrt nn, h1, h2]; ring
   have hx : (a2.re / N) ^ 2 ≤ 1 := by
     rw [div_pow, div_le_one (by positivity)]; nlinarith [sq_nonneg a1.re]
   have hx1 : -1 ≤ a2.re / N ∧ a2.re / N ≤ 1 := by
